@@ -38,8 +38,8 @@ func safe(f func()) (perr string) {
 	return ""
 }
 
-// observeData: LoadForm, then per margin: pp.Append -> ReadOne -> (Eval | ListToFunc) -> Equal, the way
-// sliptest.LoadForm does it.
+// observeData: LoadForm; the form evaluated directly; then per margin: pp.Append -> ReadOne -> Equal to the form? ->
+// Eval -> Equal to the value? (the way sliptest.LoadForm does it).
 func observeData(v slip.Object, margins []int) (term string, d dataObs, ok bool) {
 	d.Value = readable(v)
 	var form slip.Object
@@ -57,23 +57,18 @@ func observeData(v slip.Object, margins []int) (term string, d dataObs, ok bool)
 			d.Form = readable(form)
 		}
 	}
-	// evaluation of the flat form (margin-independent part)
 	gres := "RNone"
 	d.Texts = map[string]string{}
 	var gtexts []string
 	if strings.HasPrefix(gform, "(FOk") {
-		evalOne := func(text []byte) (res string, shown string, equal bool) {
+		evalForm := func(f slip.Object) (res string, shown string, equal bool) {
 			var o2 slip.Object
 			perr := safe(func() {
 				scope := slip.NewScope()
-				code, _ := slip.ReadOne(text, scope)
-				if len(code) == 0 {
-					panic(fmt.Errorf("nothing read"))
-				}
-				o2 = code[0]
-				if list, isList := o2.(slip.List); isList {
+				o2 = f
+				if list, isList := f.(slip.List); isList {
 					o2 = scope.Eval(list, 0)
-				} else if sym, isSym := o2.(slip.Symbol); isSym {
+				} else if sym, isSym := f.(slip.Symbol); isSym {
 					o2 = scope.Eval(sym, 0)
 				}
 			})
@@ -87,8 +82,13 @@ func observeData(v slip.Object, margins []int) (term string, d dataObs, ok bool)
 			}
 			return "(ROk " + gObj(o2) + ")", readable(o2), eq
 		}
-		flatText := []byte(readable(form))
-		gres, d.Eval, d.Equal = evalOne(flatText)
+		// the pretty-printed texts first: evaluating a (lambda ...) form compiles its body in place
+		type tx struct {
+			m    int
+			text []byte
+			perr string
+		}
+		var txs []tx
 		seen := map[string]bool{}
 		for _, m := range margins {
 			var text []byte
@@ -97,27 +97,75 @@ func observeData(v slip.Object, margins []int) (term string, d dataObs, ok bool)
 				scope.Let(slip.Symbol("*print-right-margin*"), slip.Fixnum(m))
 				text = pp.Append(nil, scope, form)
 			})
-			if perr != "" {
-				gtexts = append(gtexts, fmt.Sprintf("(%d%%N, TErr %s)", m, gStr(perr)))
-				d.Texts[fmt.Sprint(m)] = "!" + perr
-				continue
-			}
-			if seen[string(text)] {
+			if perr == "" && seen[string(text)] {
 				continue
 			}
 			seen[string(text)] = true
-			r, _, eq := evalOne(text)
-			same := r == gres && eq == d.Equal
-			gtexts = append(gtexts, fmt.Sprintf("(%d%%N, TText %s %s)", m, gStr(string(text)), common.GBool(same)))
-			d.Texts[fmt.Sprint(m)] = string(text)
+			txs = append(txs, tx{m, text, perr})
+		}
+		var form2 slip.Object
+		_ = safe(func() { form2 = lf.LoadForm() })
+		gres, d.Eval, d.Equal = evalForm(normForm(form2))
+		for _, t := range txs {
+			if t.perr != "" {
+				gtexts = append(gtexts, fmt.Sprintf("(%d%%N, TErr %s)", t.m, gStr(t.perr)))
+				d.Texts[fmt.Sprint(t.m)] = "!" + t.perr
+				continue
+			}
+			var rf slip.Object
+			readEq := false
+			perr := safe(func() {
+				code, _ := slip.ReadOne(t.text, slip.NewScope())
+				if len(code) != 1 {
+					panic(fmt.Errorf("read %d forms", len(code)))
+				}
+				rf = code[0]
+				readEq = slip.ObjectEqual(form, rf) || gObj(form) == gObj(rf)
+				if !readEq && os.Getenv("VERIF_C19_DEBUG") != "" {
+					fmt.Println("  READDIFF", firstDiff(form, rf, ""), "TEXT", string(t.text))
+				}
+			})
+			evalSame := false
+			if perr == "" {
+				r, _, _ := evalForm(rf)
+				evalSame = r == gres
+				if !evalSame && os.Getenv("VERIF_C19_DEBUG") != "" {
+					fmt.Println("  EVALDIFF", r, "VS", gres, "TEXT", string(t.text))
+				}
+			}
+			gtexts = append(gtexts, fmt.Sprintf("(%d%%N, TText %s %s %s)", t.m, gStr(string(t.text)), common.GBool(readEq), common.GBool(evalSame)))
+			d.Texts[fmt.Sprint(t.m)] = string(t.text)
+			if !readEq || !evalSame {
+				d.Problem += fmt.Sprintf("margin %d: read-back equal to the form: %v, evaluates to the same: %v; ", t.m, readEq, evalSame)
+			}
 		}
 	}
 	term = fmt.Sprintf("DCase %s %s %s %s %s", gObj(v), gform, gres, common.GBool(d.Equal), common.GList(gtexts))
 	return term, d, true
 }
 
+// normForm replaces empty slip.List values inside a form by nil, which is what printing and reading the form does
+// (an empty list and nil are the same Lisp object; Go code that type-switches on slip.List tells them apart).
+func normForm(o slip.Object) slip.Object {
+	if l, ok := o.(slip.List); ok {
+		if len(l) == 0 {
+			return nil
+		}
+		c := make(slip.List, len(l))
+		for i, e := range l {
+			c[i] = normForm(e)
+		}
+		return c
+	}
+	return o
+}
+
 func Run(ctx *common.Ctx) {
-	g := &gen{r: ctx.Rng, hist: ctx.Hist}
+	// common.NewRng(seed) starts SplitMix64 at seed*gamma+c, so the streams of two seeds are the same stream shifted by
+	// (seed2-seed1) draws; a generator that uses a variable number of draws per case then produces nearly the same
+	// cases for every seed. All choices below come from a second generator seeded by two (mixed) outputs of ctx.Rng.
+	rng := common.NewRng(ctx.Rng.Next() ^ (ctx.Rng.Next() >> 7))
+	g := &gen{r: rng, hist: ctx.Hist}
 	nvalues := 600
 	if ctx.Thorough() {
 		nvalues = 8000
@@ -148,7 +196,7 @@ func Run(ctx *common.Ctx) {
 	ctx.Meta.DistinctNontrivial = len(distinct)
 	ctx.Meta.Rule = "placeholder"
 	header := "From Coq Require Import List String ZArith NArith Bool.\nImport ListNotations.\nFrom C19 Require Import Model Spec Corr.\n"
-	footer := "Definition res := Eval vm_compute in check_all cases.\nPrint res.\n"
+	footer := "Definition res := Eval vm_compute in check_all cases.\nPrint res.\nDefinition gcount := Eval vm_compute in guard_count cases.\nPrint gcount.\nDefinition unmodelled := Eval vm_compute in unmodelled_count cases.\nPrint unmodelled.\n"
 	ctx.WriteShards("cases", header, "case", footer, terms, descs, 16)
 	ctx.ReplayKnownLisp()
 }
